@@ -4,11 +4,13 @@ import itertools
 from harness import coqio as q
 
 ID = "C01"
-COQ_REQUIRE = ["Net", "M_Dpop", "M_DpopValid"]
+COQ_REQUIRE = ["Net", "M_Dpop", "M_DpopValid", "M_DpopBuilt"]
 COQ_CASE_TYPE = "M_Dpop.case"
 # M_Dpop.check_case (replay of the recorded schedule) && dpop_check of the real pseudo-tree (the
-# hypothesis of dpop_all_schedules)
-COQ_CHECK = "M_DpopValid.check_case"
+# hypothesis of dpop_all_schedules) && M_DpopBuilt.built_ok: the dcop + tree extracted from the real
+# objects IS dpop_of (builder model of C17 + translation) of the tree-less DCOP, and that DCOP
+# satisfies wf_rdcopb, the executable hypothesis of dpop_on_built_tree
+COQ_CHECK = "M_DpopBuilt.check_case"
 OBLIGATIONS = ["sem_join", "sem_projection", "sem_slice", "fao_optimal",
                "dpop_util_sem_partial", "dpop_util_sem", "dpop_choice_opt", "dpop_util_accumulates", "dpop_value_opt", "dpop_root_opt",
                "dpop_value_forward", "dpop_all_schedules_partial",
@@ -223,6 +225,9 @@ def run_impl(c):
         tree[node.name] = [p, list(ch), list(pps), list(pcs), [r.name for r in node.constraints]]
         comps[node.name] = mod.build_computation(ComputationDef(node, adef))
     cons_dims = {r.name: [v.name for v in r.dimensions] for r in dcop.constraints.values()}
+    # the order in which build_computation_graph(dcop) lists variables and constraints
+    var_order = [v.name for v in dcop.variables.values()]
+    cons_order = [r.name for r in dcop.constraints.values()]
     log = []
     byname = {v.name: v for v in vs}
 
@@ -274,8 +279,8 @@ def run_impl(c):
     for (s, d), ql in sorted(drv.chans.items()):
         if d in comps:
             inflight.append([s, d, [msgobs(m_) for m_ in ql]])
-    return dict(tree=tree, cons_dims=cons_dims, log=log, sched=drv.schedule, final=final, joined=joined,
-                inflight=inflight, complete=complete)
+    return dict(tree=tree, cons_dims=cons_dims, var_order=var_order, cons_order=cons_order, log=log,
+                sched=drv.schedule, final=final, joined=joined, inflight=inflight, complete=complete)
 
 
 # ------------------------------------------------------------------ oracle (independent of pydcop)
@@ -378,11 +383,21 @@ def _msg(m):
 
 def coq_case(c, o):
     nv = len(c["doms"])
-    dom = q.lst([q.pair(q.z(i), q.z(c["doms"][i])) for i in range(nv)])
+    # variables / constraints in the order the real DCOP object lists them (= the order the
+    # pseudo-tree builder receives; M_DpopBuilt.raw_of reads the variable order off dc_dom and
+    # requires constraint ids = positions)
+    vorder = [_id(n_) for n_ in o.get("var_order", [_v(i) for i in range(nv)])]
+    if sorted(vorder) != list(range(nv)):
+        raise ValueError("dcop.variables lists %s" % vorder)
+    corder = [_id(n_) for n_ in o.get("cons_order", [_c(k) for k in range(len(c["cons"]))])]
+    if sorted(corder) != list(range(len(c["cons"]))):
+        raise ValueError("dcop.constraints lists %s" % corder)
+    dom = q.lst([q.pair(q.z(i), q.z(c["doms"][i])) for i in vorder])
     vcost = q.lst([q.pair(q.z(i), q.zlist([(c["vcost"][i] or {}).get(str(k), 0) for k in range(c["doms"][i])]))
-                   for i in range(nv)])
+                   for i in vorder])
     cons = []
-    for k, cc in enumerate(c["cons"]):
+    for k in corder:
+        cc = c["cons"][k]
         dims = [_id(d) for d in o["cons_dims"][_c(k)]]
         if sorted(dims) != sorted(cc["scope"]):
             raise ValueError("constraint %s has dimensions %s, expected scope %s" % (_c(k), dims, cc["scope"]))
